@@ -2,7 +2,7 @@
 import fam_imports as fi
 from vlib import load_known
 
-OWNED = {"C10_AppliesIffGuardsHold", "C10_GuardFailedNoEffect", "C10_ImportNameBindsBody", "NoError"}
+OWNED = {"C10_AppliesIffGuardsHold", "C10_GuardFailedNoEffect", "C10_ImportNameBindsBody", "NoError", "C03_PlusUnderCapturedName"}
 ASSUME = [
     "scenarios of the TLA+ universe are rendered to patch text and Go source by lib/fam_imports.py; what the file imports, which names it still uses and whether the code pattern was rewritten are read off the real input and output by go/parser (harness op impobs), not taken from the scenario",
     "files with two imports of one path are outside the table (DESIGN.md section 7) and are not generated",
